@@ -15,7 +15,7 @@ LEVEL_TEXT = ("Bounded symbolic execution of evaluation, every derivative route 
               "feasible path the outcome kind must be a real number, DomainError or CoordinateMissing; a foreign outcome on a feasible "
               "path is a solver-produced witness point (inside, outside or on the boundary of the domain, with or without missing coordinates).")
 BOUNDS = {
-    "quick": {"families": "F1 node lemmas over possibly-undefined children, masked offenders, stratified F2, points missing each subset of "
+    "quick": {"families": "F1 node lemmas over possibly-undefined children, parameterised nodes whose parameter is an unconstrained solver variable (base: any real; n: any integer <= 6 and any real <= 6), masked offenders, stratified F2, points missing each subset of "
               "coordinates, routes eval/fwd/rev/diff_at/early/as_expression", "outside": "deeper trees, n>7, arity>4, overflow/underflow (NaN/inf)"},
     "thorough": {"families": "as quick with all F2, F3 chains (every fourth), seeded F5", "outside": "deeper trees, n>7, arity>4, overflow/underflow (NaN/inf)"},
 }
@@ -44,6 +44,17 @@ def jobs(tier, seed):
     for d in f4.f4(tier)[::(9 if tier == "quick" else 3)]:
         if rt.variables_of(d):
             add(d, ["asexp_giveup", "norm_giveup"], var=rt.variables_of(d)[0])
+    # the parameter itself is an UNCONSTRAINED solver variable: whatever the constructor lets through (the documented range, or more after a
+    # change of the validation) must still only produce the library's own errors on every route
+    B, N = ["sym", "b1"], ["sym", "n1"]
+    for mk in (lambda u: u, lambda u: ["Negation", u], lambda u: ["Add", u, fam.Y], lambda u: ["Minus", fam.Y, u], lambda u: ["Multiply", u, fam.Y],
+               lambda u: ["Sine", u]):
+        for u in (["Exponential", fam.X, B], ["Logarithm", fam.X, B]):
+            add(mk(u), NUM + EARLY + ASEXP, var="x", may_reject=True)
+        for u in (["NthPower", fam.X, N], ["NthRoot", fam.X, N]):
+            add(mk(u), NUM + EARLY + ASEXP, var="x", may_reject=True, int_inputs=["n1"], assume=[["le", "n1", 6]])       # (no lower bound)
+    add(["NthRoot", fam.X, B], NUM + EARLY, var="x", may_reject=True, assume=[["le", "b1", 6]])
+    add(["NthPower", fam.X, B], NUM + EARLY, var="x", may_reject=True, assume=[["le", "b1", 6]])
     m = c02.masked()
     for d in (m if tier == "thorough" else m[::2]):
         add(d, NUM + EARLY[:1], var="x")
@@ -77,6 +88,8 @@ def jobs(tier, seed):
 
 def vcs(spec, ctx, outs):
     res = []
+    if outs and outs[0].get("kind") == "rejected":
+        return [VC("constructor-rejects-the-parameter:no-expression", None, None, {"failed": False, "how": outs[0].get("msg")})]
     n = len(spec["routes"])
     allowed = set(common.OK_ERRORS)
     if spec.get("twin") == "forbid-DomainError":
